@@ -15,7 +15,7 @@ ASSUMPTIONS = [
 ]
 
 HOOK_COMMITS = ["aa112f6"]
-FIX_COMMITS = ["536bdea", "2163003", "086d718", "eebbb00", "ae8746e", "813750d", "4dcfce1", "affca7a", "6634824", "7638f19", "8a1300b", "fe98d51", "caf36c4", "e4b64f7", "0c686df", "48a484d", "a33ca28", "1d2c9d7", "159b1e5"]
+FIX_COMMITS = ["536bdea", "2163003", "086d718", "eebbb00", "ae8746e", "813750d", "4dcfce1", "affca7a", "6634824", "7638f19", "8a1300b", "fe98d51", "caf36c4", "e4b64f7", "0c686df", "48a484d", "a33ca28", "1d2c9d7", "159b1e5", "a12e15f", "efcde62", "04ea757"]
 NOT_YET = {}
 
 CFG = {
@@ -121,6 +121,14 @@ CFG = {
         "level_note": "Trusted: Lean kernel, Mathlib, hand-written model validated by the correspondence run (binary searches modelled by their contract); rounding not analysed.",
         "files": ["src/common/discrete_domain.rs", "src/common/vec_f64.rs", "src/func1/series1.rs"],
         "tol": {"*": 1e-9},
+    },
+    "C19": {
+        "cases": {"quick": 3200, "thorough": 320000},
+        "level_text": "Theorems (ℝ): each of the six two-vector constructors, interpreted from the recipe table regenerated from iso3.rs, yields orthonormal columns with e0×e1=e2, primary column = normalised first argument, secondary column on the second argument's side, and fails exactly when the first argument or the cross product is below the regenerated threshold (in particular for zero / parallel input); means are affine-equivariant and weight-scale invariant; under the contract assumed of the external SVD (orthonormal rows diagonalising the Gram form, checked on every run) σ²/n is the variance along each axis, to/from-basis round-trips, the contract is preserved by rigid motions and uniform weight scaling, and rank drops for coincident/collinear/planar sets; plane constructions contain their defining points, projections lie on the plane, inversion flips the sign.",
+        "level_note": "Trusted: Lean kernel, Mathlib, the recipe extractor, hand-written model validated by the correspondence run; nalgebra SVD and quaternion-from-matrix are external (contract evaluated per case, not proved); rounding not analysed.",
+        "files": ["src/common/svd_basis.rs", "src/geom3/iso3.rs", "src/geom3/plane3.rs", "src/common/points.rs"],
+        "tol": {"*": 1e-9, "frame.make": 1e-8, "frame.xyo": 1e-8},
+        "trusted": ["external: nalgebra SVD (its result is an input of the model; the assumed contract is evaluated on every case), UnitQuaternion::from_matrix (modelled as the identity on orthonormal right-handed column matrices)"],
     },
     "C18": {
         "cases": {"quick": 16000, "thorough": 1600000},
